@@ -213,10 +213,44 @@ pub fn run_heartbeat(idle_ms: u32, periods: u32, with_traffic: bool) -> Result<(
 /// falls silent.  Returns (advertised idle-time-out in the client's open, virtual ms at which the
 /// engine stopped counted from the last frame the peer sent, the handle's verdict, stopped during the
 /// lively phase?)
+/// a stream whose shutdown fails (the peer is gone): the time-out that tore the connection down must
+/// still be what the application is told
+#[derive(Debug)]
+pub struct FailingShutdown<S> {
+    inner: S,
+    fail: bool,
+}
+
+impl<S: tokio::io::AsyncRead + Unpin> tokio::io::AsyncRead for FailingShutdown<S> {
+    fn poll_read(mut self: std::pin::Pin<&mut Self>, cx: &mut std::task::Context<'_>, buf: &mut tokio::io::ReadBuf<'_>) -> std::task::Poll<std::io::Result<()>> {
+        std::pin::Pin::new(&mut self.inner).poll_read(cx, buf)
+    }
+}
+
+impl<S: tokio::io::AsyncWrite + Unpin> tokio::io::AsyncWrite for FailingShutdown<S> {
+    fn poll_write(mut self: std::pin::Pin<&mut Self>, cx: &mut std::task::Context<'_>, buf: &[u8]) -> std::task::Poll<std::io::Result<usize>> {
+        std::pin::Pin::new(&mut self.inner).poll_write(cx, buf)
+    }
+    fn poll_flush(mut self: std::pin::Pin<&mut Self>, cx: &mut std::task::Context<'_>) -> std::task::Poll<std::io::Result<()>> {
+        std::pin::Pin::new(&mut self.inner).poll_flush(cx)
+    }
+    fn poll_shutdown(mut self: std::pin::Pin<&mut Self>, cx: &mut std::task::Context<'_>) -> std::task::Poll<std::io::Result<()>> {
+        if self.fail {
+            return std::task::Poll::Ready(Err(std::io::Error::new(std::io::ErrorKind::NotConnected, "shutdown of a dead stream")));
+        }
+        std::pin::Pin::new(&mut self.inner).poll_shutdown(cx)
+    }
+}
+
 pub fn run_local_idle(idle_ms: u32, gap_ms: u32, n: u32) -> Result<(Option<u32>, Option<u64>, String, bool), String> {
+    run_local_idle_on(idle_ms, gap_ms, n, false)
+}
+
+pub fn run_local_idle_on(idle_ms: u32, gap_ms: u32, n: u32, shutdown_fails: bool) -> Result<(Option<u32>, Option<u64>, String, bool), String> {
     let rt = paused_runtime();
     rt.block_on(async move {
         let (cio, pio) = tokio::io::duplex(1 << 18);
+        let cio = FailingShutdown { inner: cio, fail: shutdown_fails };
         let mut peer = Peer::new(pio);
         let client = tokio::spawn(async move { Connection::builder().container_id("c17i").idle_time_out(idle_ms).open_with_stream(cio).await });
         let open = peer.accept_open(&PeerOpen::default()).await.map_err(|e| format!("{:?}", e))?;
@@ -358,7 +392,7 @@ pub fn main(opts: &Opts) {
             let idle = h.get("idle_ms").and_then(|x| x.as_u64()).unwrap_or(1000) as u32;
             let gap = h.get("gap_ms").and_then(|x| x.as_u64()).unwrap_or(100) as u32;
             let n = h.get("n").and_then(|x| x.as_u64()).unwrap_or(5) as u32;
-            let r = run_local_idle(idle, gap, n);
+            let r = run_local_idle_on(idle, gap, n, h.get("shutdown_fails").and_then(|x| x.as_bool()).unwrap_or(false));
             println!("{:?}", r);
             match r.ok().and_then(|x| check_local_idle(idle, gap, &x)) {
                 Some((k, d)) => {
@@ -453,17 +487,23 @@ pub fn main(opts: &Opts) {
         }
         .max(1);
         let n = rng.range(0, 8) as u32;
+        // every third time the stream is dead by then: its shutdown fails as well
+        let shutdown_fails = rng.chance(1, 3);
         report.evaluations += 1;
-        match run_local_idle(idle, gap, n) {
+        if shutdown_fails {
+            report.count("local_idle_with_failing_shutdown");
+        }
+        match run_local_idle_on(idle, gap, n, shutdown_fails) {
             Ok(r) => {
                 if r.1.is_some() {
-                    report.nontrivial_case(fnv(&format!("li{}/{}/{}", idle, gap, n)));
+                    report.nontrivial_case(fnv(&format!("li{}/{}/{}/{}", idle, gap, n, shutdown_fails)));
                 }
                 if let Some((key, desc)) = check_local_idle(idle, gap, &r) {
-                    report.finding(Finding { kind: "violation", key, description: desc, replay: json!({"property": "C17", "module": "limits", "local_idle": {"idle_ms": idle, "gap_ms": gap, "n": n}}) });
+                    let key = if shutdown_fails && key == "time-out-not-reported" { "time-out-not-reported:shutdown-failed-too".to_string() } else { key };
+                    report.finding(Finding { kind: "violation", key, description: desc, replay: json!({"property": "C17", "module": "limits", "local_idle": {"idle_ms": idle, "gap_ms": gap, "n": n, "shutdown_fails": shutdown_fails}}) });
                 }
             }
-            Err(e) => report.finding(Finding { kind: "violation", key: "local-idle-scenario-failed".into(), description: e, replay: json!({"property": "C17", "module": "limits", "local_idle": {"idle_ms": idle, "gap_ms": gap, "n": n}}) }),
+            Err(e) => report.finding(Finding { kind: "violation", key: "local-idle-scenario-failed".into(), description: e, replay: json!({"property": "C17", "module": "limits", "local_idle": {"idle_ms": idle, "gap_ms": gap, "n": n, "shutdown_fails": shutdown_fails}}) }),
         }
     }
     // (d)
